@@ -242,6 +242,11 @@ def to_trace_run(run, defn):
         if a["raised"] or res is None or len(res) != 5:
             return None, {"what": "an attempt raised or returned a malformed result", "detail": str(a["raised"] or res)[:200]}, None
         t_new, dt, x_new, jumps, ok = res
+        if np.max(np.abs(np.asarray(a["xb"], float))) > 1000 or \
+                (np.ndim(x_new) and np.max(np.abs(np.asarray(x_new, float))) > 1000 and np.all(np.isfinite(np.asarray(x_new, float)))):
+            # TLC evaluates the rates exactly with 32-bit integers: judge the prefix up to here
+            truncated = True
+            break
         xb = _ints(a["xb"])
         if xb is None:
             return None, {"what": "non-integer state handed to the stepper", "detail": str(a["xb"])}, None
